@@ -14,15 +14,16 @@ func ParseTargetType(targetCtx string) string {
 	if strings.HasSuffix(typeOf, "MethodCallContext") {
 		targetType = currentClz
 	} else {
+		// a local variable or parameter hides a field of the same name
 		fieldType := mapFields[targetCtx]
 		formalType := formalParameters[targetCtx]
 		localVarType := localVars[targetCtx]
-		if fieldType != "" {
-			targetType = fieldType
+		if localVarType != "" {
+			targetType = localVarType
 		} else if formalType != "" {
 			targetType = formalType
-		} else if localVarType != "" {
-			targetType = localVarType
+		} else if fieldType != "" {
+			targetType = fieldType
 		}
 	}
 
